@@ -10,8 +10,9 @@ import MtblProofs.AccessProofs
   (Mtbl.Generated.accessSites): `C14_sites_declared` and `C14_declared_in_model` below re-check it.
 
   PARTIAL (DESIGN.md §8 C14): the machine has one caller and one result handler; several callers sharing one pool
-  (`pool->m`, `pool->c` with several waiters), the writer/sorter field partition and reader immutability are exercised
-  only at run time under ThreadSanitizer (correspondence family `mt`); the C11 memory model is not formalised.
+  (`pool->m`, `pool->c` with several waiters) and the writer/sorter field partition are exercised only at run time under
+  ThreadSanitizer (correspondence family `mt`); reader immutability is a regenerated table theorem
+  (`C14_reader_immutable`) plus the same run-time check; the C11 memory model is not formalised.
 -/
 namespace Tp.C14
 variable {max njobs : Nat} {ordered : Bool} {s : St}
@@ -33,6 +34,12 @@ theorem C14_pool_fields_locked : declared.all (fun d =>
 theorem C14_queue_fields_locked : declared.all (fun d =>
     !(d.1.obj == "resultq") || d.1.locks.contains "rq" || d.2 == .setup || d.2 == .teardown) = true :=
   queue_fields_locked
+
+/-- the reader is immutable after open and iterators own what they write: every assignment to a field of
+    struct mtbl_reader or struct block in reader.c / block.c sits in a constructor or destructor; all other assignments go
+    to a reader_iter or block_iter (table regenerated from the source on every run) -/
+theorem C14_reader_immutable : Mtbl.Generated.readerWrites.all (fun s =>
+    s.obj == "reader_iter" || s.obj == "block_iter" || readerCtors.contains s.fn) = true := reader_immutable
 
 /-- non-vacuity: the race predicate does fire on a machine state outside the reachable set (the caller assigning a job
     to a thread whose worker is in its unlocked section) -/
